@@ -1129,3 +1129,108 @@ func ruleConversionsOverwriteTheirTarget(c *core.Ctx) {
 		c.Undecided(rule, "anchor/target emissions", 0, "no emission through a target parameter found in cpp/binary")
 	}
 }
+
+func init() {
+	reg("C18", ruleBackEndsSkipNamespacesOnlyByLevel)
+	reg("C08", ruleBackEndsSkipNamespacesOnlyByLevel)
+}
+
+// ---------------------------------------------------------------------------------------------------------------
+// NK1: a back end that loops over env.Namespaces skips a namespace only because of its LEVEL (`ns.IsTopLevel`:
+// protocols, mocks and translators exist for the top level only), never because of its contents. Importers emit
+// `from . import <ns>` / `#include "<ns>/types.h"` / `+<ns>` references for every namespace they reference; a
+// namespace left out because it "has nothing to emit" (no types, protocols only, an umbrella package) is referred to
+// but not generated.
+// ---------------------------------------------------------------------------------------------------------------
+func ruleBackEndsSkipNamespacesOnlyByLevel(c *core.Ctx) {
+	const rule = "NK1"
+	c.Rule(rule, "internal/* back ends: inside `for … := range <env>.Namespaces` a `continue` of that loop stands only under a condition on the namespace's IsTopLevel flag", 8)
+	n := 0
+	for _, d := range c.AllDecls() {
+		p := c.DeclPkg(d)
+		if p == nil || d.Body == nil || c.IsTestFile(d.Pos()) || !strings.Contains(p.PkgPath, "/internal/") || strings.HasSuffix(p.PkgPath, "/internal/cmd") {
+			continue
+		}
+		k := 0
+		ast.Inspect(d.Body, func(m ast.Node) bool {
+			rs, ok := m.(*ast.RangeStmt)
+			if !ok {
+				return true
+			}
+			se, ok := rs.X.(*ast.SelectorExpr)
+			if !ok || se.Sel.Name != "Namespaces" {
+				return true
+			}
+			n++
+			k++
+			bad := token.NoPos
+			why := ""
+			// continues that belong to this loop, with the conditions between the loop body and them
+			var walk func(node ast.Node, conds []ast.Expr)
+			walk = func(node ast.Node, conds []ast.Expr) {
+				switch x := node.(type) {
+				case *ast.BlockStmt:
+					for _, s := range x.List {
+						walk(s, conds)
+					}
+				case *ast.IfStmt:
+					walk(x.Body, append(append([]ast.Expr{}, conds...), x.Cond))
+					if x.Else != nil {
+						walk(x.Else, append(append([]ast.Expr{}, conds...), x.Cond))
+					}
+				case *ast.BranchStmt:
+					if x.Tok == token.CONTINUE && x.Label == nil {
+						for _, cnd := range conds {
+							onlyLevel := true
+							ast.Inspect(cnd, func(k ast.Node) bool {
+								switch y := k.(type) {
+								case *ast.SelectorExpr:
+									if y.Sel.Name != "IsTopLevel" {
+										onlyLevel = false
+									}
+									return false
+								case *ast.Ident:
+									if y.Name != "true" && y.Name != "false" {
+										onlyLevel = false
+									}
+								case *ast.CallExpr, *ast.BasicLit:
+									onlyLevel = false
+								}
+								return true
+							})
+							if !onlyLevel && bad == token.NoPos {
+								bad = x.Pos()
+								why = types.ExprString(cnd)
+							}
+						}
+					}
+				case *ast.SwitchStmt, *ast.TypeSwitchStmt:
+					// a continue inside a switch clause still belongs to this loop
+					ast.Inspect(x, func(k ast.Node) bool {
+						switch y := k.(type) {
+						case *ast.ForStmt, *ast.RangeStmt, *ast.FuncLit:
+							return false
+						case *ast.BranchStmt:
+							if y.Tok == token.CONTINUE && y.Label == nil && bad == token.NoPos {
+								bad = y.Pos()
+								why = "a switch clause"
+							}
+						}
+						return true
+					})
+				}
+			}
+			walk(rs.Body, nil)
+			at := rs.Pos()
+			if bad != token.NoPos {
+				at = bad
+			}
+			c.Check(bad == token.NoPos, rule, fmt.Sprintf("%s/range %s#%d", c.FuncName(d), types.ExprString(rs.X), k), at, "namespaces are skipped by level only",
+				"a namespace is skipped under `"+why+"`: a condition on its contents. The importing namespaces still refer to it (`from . import <ns>`, includes, package folders), so for an imported package that happens to satisfy the condition (no types of its own, protocols only) the generated code refers to a module that was never written")
+			return true
+		})
+	}
+	if n == 0 {
+		c.Undecided(rule, "anchor/namespace loops", 0, "none found in the back ends")
+	}
+}
